@@ -56,7 +56,7 @@ def _split(paths, outprefix, per=120000):
 
 
 def parts(tier):
-    return [0, 1, 2, 3, 4, 5, 7, 8] + ([6] if tier == "thorough" else [])
+    return [0, 1, 2, 3, 4, 5, 7, 8, 9] + ([6] if tier == "thorough" else [])
 
 
 def model(tier):
@@ -158,6 +158,8 @@ def replay(rec):
     ev = rec["event"]
     if ev["op"] in ("span", "span_obs"):
         lines = [{"k": "span", "n": ev["n"], "o": ev.get("o", 0), "c": ev.get("c", -1)}]
+    elif ev["op"] == "eq":
+        lines = [{"k": "ext", "ext": ev["ext"]}] + ([{"k": "ext", "ext": ev["ext2"]}] if ev["ext2"] != ev["ext"] else [])
     elif ev.get("layout") == "stride":
         lines = [{"k": "stride", "ext": ev["ext"], "strides": ev["sin"], "pad": 0}]
     else:
@@ -169,6 +171,8 @@ def replay(rec):
             f.write(json.dumps(ln) + "\n")
     nd, etl_flags = probe()
     rank = len(ev.get("ext", []))
+    if ev["op"] == "eq":
+        rank = -1                      # only part 9 (and the cheap rank-independent parts) matter
     ps = [p for p in parts("thorough") if not (p in (1, 2, 3, 4, 5) and rank != 3) and not (p == 6 and rank != 4)]
     jobs = [dict(src="md_driver.cpp", out="md_replay_%d" % p, std="c++23", flags=CXX + ["-DVH_PART=%d" % p] + list(etl_flags),
                  timeout=1500) for p in ps]
@@ -182,5 +186,5 @@ def replay(rec):
     if os.path.getsize(tp) == 0:
         raise vlib.ModelFailure("replay produced no events for %s" % json.dumps(ev)[:300])
     tv = vlib.tlc_tv("MdTrace.tla", "MdTrace.cfg", tp, "md_replay", "3g")
-    keys = ("op", "pat", "layout", "form", "kind", "it", "tpl", "sn", "slices", "src_pat")
+    keys = ("op", "pat", "layout", "form", "kind", "it", "tpl", "sn", "slices", "src_pat", "what", "pat2", "ext2", "it2")
     return [x for x in tv["deviations"] if all(x["ev"].get(k) == ev.get(k) for k in keys)]
